@@ -7,6 +7,7 @@ import sys
 
 HERE = os.path.dirname(os.path.dirname(os.path.abspath(__file__)))
 EXTRA = {"C13-async-bitpos-zero-no-merge": ["C02"], "C18-maxitems-ge8": ["C02", "C03"], "C02-maxitems-ge8": ["C18", "C03"], "C20-retry-keeps-segments": ["C01"], "C15-name-decoded-utf8": ["C04"], "C16-read-outside-lock": [], "C09-cancel-before-disconnect-event": ["C08"], "C08-cancel-before-disconnect-event": ["C09"], "C10-locator-early-out": ["C15"], "C01-segments-hoisted": ["C05"], "C17-facade-mode-cache": []}
+SEEDS = [int(x) for x in os.environ.get("CHECK_SEEDS", "0").split(",")]
 rows = []
 for sid in sorted(os.listdir(os.path.join(HERE, "seeded"))):
     d = os.path.join(HERE, "seeded", sid)
@@ -21,17 +22,22 @@ for sid in sorted(os.listdir(os.path.join(HERE, "seeded"))):
         rows.append((sid, prop, {k: dict(v, exit=str(v["exit"]) + " (before fix " + meta["neutralised_by"]["fix"] + "; neutralised by it)") for k, v in meta["caught_by"].items()}))
         continue
     for chk in [prop] + EXTRA.get(sid, []):
-        p = subprocess.run([os.path.join(HERE, "tools", "try_seed_wt.sh"), sid, chk], stdout=subprocess.PIPE, stderr=subprocess.STDOUT, env=dict(os.environ, LINES_SHOWN="40"))
-        out = p.stdout.decode()
-        keys = sorted({l.split("violated: ")[1].split(": ")[0] for l in out.splitlines() if "violated: " in l})
-        rc = int(out.strip().splitlines()[-1].split("exit=")[1]) if "exit=" in out else -1
-        caught[chk] = {"exit": rc, "keys": keys[:6]}
+        rcs, keys = [], set()
+        for cs in SEEDS if chk == prop else SEEDS[:1]:
+            p = subprocess.run([os.path.join(HERE, "tools", "try_seed_wt.sh"), sid, chk], stdout=subprocess.PIPE, stderr=subprocess.STDOUT, env=dict(os.environ, LINES_SHOWN="40", CHECK_SEED=str(cs)))
+            out = p.stdout.decode()
+            keys |= {l.split("violated: ")[1].split(": ")[0] for l in out.splitlines() if "violated: " in l}
+            rcs.append(int(out.strip().splitlines()[-1].split("exit=")[1]) if "exit=" in out else -1)
+        keys = sorted(keys)
+        # caught = caught under every check seed tried (a catch that depends on the draw is reported as such)
+        rc = 1 if all(x == 1 for x in rcs) else (rcs[0] if len(set(rcs)) == 1 else "/".join(map(str, rcs)))
+        caught[chk] = {"exit": rc, "keys": keys[:6], "check_seeds": SEEDS if chk == prop else SEEDS[:1]}
         print(sid, chk, rc, keys[:3], flush=True)
     meta["caught_by"] = {k: v for k, v in caught.items()}
     json.dump(meta, open(os.path.join(d, "meta.json"), "w"), indent=1)
     rows.append((sid, prop, caught))
 with open(os.path.join(HERE, "seeded", "CATCH.md"), "w") as f:
-    f.write("# Seeded changes vs checks (quick tier, seed 0)\n\nexit 1 = caught (VIOLATION line), 0 = missed, 2 = inconclusive. Keys are the mechanism fingerprints reported.\n\n| seeded change | property | check | exit | fingerprints |\n|---|---|---|---|---|\n")
+    f.write("# Seeded changes vs checks (quick tier; own property's check under every seed of CHECK_SEEDS, extra checks under the first)\n\nexit 1 = caught (VIOLATION line), 0 = missed, 2 = inconclusive. Keys are the mechanism fingerprints reported.\n\n| seeded change | property | check | exit | fingerprints |\n|---|---|---|---|---|\n")
     for sid, prop, caught in rows:
         for chk, v in caught.items():
             f.write(f"| {sid} | {prop} | {chk} | {v['exit']} | {', '.join(v['keys'][:4])} |\n")
